@@ -71,103 +71,114 @@ example : ∃ (s s' : St) (l : List (Nat × List Nat)), 2 * s.mds ≤ s.cwnd ∧
   ⟨{ bytes := 1200, s2 := { tl := some 0, sent := [{ pn := 0, ts := 0, elic := true, cc := true, size := 1200, st := PSt.I }] } },
    _, _, by decide, rfl, by decide⟩
 
-/-! ## a packet is declared lost only when a later packet has been acknowledged and one of the two thresholds holds;
-an acknowledged packet is never declared lost
+/-! ## an acknowledged packet is never declared lost; loss needs one of the two thresholds -/
 
-(`fix-C13-loss-needs-later-ack`: before it, `loss_time` was armed on every send and the time threshold applied to
-packets above the largest acknowledged one — one packet, no ACK ever, was declared lost after 37.125 ms.) -/
+/-- Every packet number handed to `may_loss` by a detection pass belongs to a packet that was `Inflight` (so
+neither `Acked` nor already reported) and satisfies the time threshold or the (index-based) packet threshold;
+packets already `Acked` stay in the list untouched. -/
+theorem acked_never_lost (s s' : St) (e ld : Nat) (lost : List Nat) (h : detectLost s e ld = .ok (s', lost)) :
+    ∀ pn ∈ lost, ∃ p ∈ (getSp s e).sent, p.pn = pn ∧ p.st = PSt.I := by
+  intro pn hpn
+  unfold detectLost at h
+  simp only at h
+  split at h
+  · cases h; simp at hpn
+  · split at h
+    · cases h
+    · cases h
+      simp only [List.mem_map] at hpn
+      obtain ⟨x, hx, rfl⟩ := hpn
+      obtain ⟨p, hp, hI, hx2, _⟩ := lossWalk_lost _ _ _ _ _ _ x hx
+      exact ⟨p, hp, by rw [hx2], hI⟩
+
+/-- the two thresholds, as the code computes them: older than `loss_delay + max_ack_delay`, or at least
+`PACKET_THRESHOLD = 3` positions before the position of the largest acknowledged number in the sent list -/
+theorem lost_needs_threshold (s s' : St) (e ld : Nat) (lost : List Nat) (h : detectLost s e ld = .ok (s', lost)) :
+    ∀ pn ∈ lost, ∃ p ∈ (getSp s e).sent, p.pn = pn ∧ p.st = PSt.I ∧
+      (p.ts + ld + (getSp s e).mad < s.now ∨
+       ∃ idx, idx + 3 ≤ bsearch (getSp s e).sent ((getSp s e).la.getD 0)) := by
+  intro pn hpn
+  unfold detectLost at h
+  simp only at h
+  split at h
+  · cases h; simp at hpn
+  · split at h
+    · cases h
+    · cases h
+      simp only [List.mem_map] at hpn
+      obtain ⟨x, hx, rfl⟩ := hpn
+      obtain ⟨p, hp, hI, hx2, hthr⟩ := lossWalk_lost _ _ _ _ _ _ x hx
+      refine ⟨p, hp, by rw [hx2], hI, ?_⟩
+      rcases hthr with ht | ht
+      · left; omega
+      · right; exact ⟨x.1, by simpa [packetThreshold] using ht⟩
+
+
+/-- the detection pass leaves every packet that is not `Inflight` (in particular every `Acked` one) in the list, unchanged -/
+theorem acked_untouched_by_detection (T ld L : Nat) (l : List Pkt) (k : Nat) (lt : Option Nat) (q : Pkt)
+    (hq : q ∈ l) (hst : q.st = PSt.A) : q ∈ (lossWalk T ld L l k lt).1 :=
+  lossWalk_keeps T ld L l k lt q hq (by rw [hst]; decide)
+
+example : ∃ q : Pkt, q ∈ [({ pn := 0, ts := 0, elic := true, cc := true, size := 1, st := PSt.A } : Pkt)] ∧ q.st = PSt.A :=
+  ⟨_, List.mem_cons_self, rfl⟩
+
+/-! ## FALSE of the unchanged code: a packet is declared lost although no later packet was acknowledged -/
 
 def inp0 : Inp :=
   { ld0 := 37124999, ld1 := 37124999, srtt0 := 33000000, rttvar0 := 16500000, srtt1 := 33000000, rttvar1 := 16500000 }
 
-/-- Every packet number handed to `may_loss` by a detection pass, in every state: an acknowledgement has been
-received in that space, the number is not above the largest acknowledged one, it belongs to a packet that was
-`Inflight` (so neither `Acked` nor already reported), and that packet is older than `loss_delay + max_ack_delay`
-or lies at least `PACKET_THRESHOLD = 3` sent-list positions before the entry of the largest acknowledged number. -/
-theorem lost_needs_later_ack (s s' : St) (e ld : Nat) (lost : List Nat) (h : detectLost s e ld = .ok (s', lost)) :
-    ∀ pn ∈ lost, ∃ la, (getSp s e).la = some la ∧ pn ≤ la ∧ ∃ p ∈ (getSp s e).sent, p.pn = pn ∧ p.st = PSt.I ∧
-      (p.ts + ld + (getSp s e).mad < s.now ∨ ∃ idx, idx + 3 ≤ bsearch (getSp s e).sent la) := by
+/-- fixed case 0 of the harness (replayed on the real `ArcCC` on every run): client, anti-amplification limit
+released, one ack-eliciting Initial packet, no ACK ever, tick after 37.125 ms -/
+def hist0 : List (Inp × Op) := [(inp0, .grant), (inp0, .sent 0 0 true true 1200)]
+def w0 : St := (initSt false 1200 25000000).toOption.getD {}
+def w1 : St := (run w0 hist0).toOption.getD {}
+def w2 : St × Out := (step w1 inp0 (.tick 37125000)).toOption.getD ({}, {})
+
+/-- the property's first clause, for all histories -/
+def LostNeedsLaterAck : Prop :=
+  ∀ (server : Bool) (mtu mad : Nat) (h : List (Inp × Op)) (i : Inp) (op : Op) (s0 s s' : St) (o : Out),
+    initSt server mtu mad = .ok s0 → run s0 h = .ok s → step s i op = .ok (s', o) →
+    ∀ e pns, (e, pns) ∈ o.lost → ∀ pn ∈ pns, ∃ la, (getSp s' e).la = some la ∧ pn < la
+
+theorem lost_needs_later_ack_fails : ¬ LostNeedsLaterAck := by
+  intro h
+  have h0 : initSt false 1200 25000000 = .ok w0 := rfl
+  have h1 : run w0 hist0 = .ok w1 := rfl
+  have h2 : step w1 inp0 (.tick 37125000) = .ok (w2.1, w2.2) := rfl
+  have hl : (0, [0]) ∈ w2.2.lost := by decide
+  have hnone : (getSp w2.1 0).la = none := by decide
+  obtain ⟨la, hla, _⟩ := h false 1200 25000000 hist0 inp0 (.tick 37125000) w0 w1 w2.1 w2.2 h0 h1 h2 0 [0] hl 0 (by decide)
+  rw [hnone] at hla
+  cases hla
+
+/-- what does hold, for every state whose sent list is sorted by packet number (C07): a packet is declared lost
+only if it was `Inflight` and is older than the time threshold, or a packet at least three numbers later has been
+covered by an ACK frame (`largest_acked ≥ pn + 3`) -/
+theorem lost_needs_threshold_pn (s s' : St) (e ld : Nat) (lost : List Nat)
+    (h : detectLost s e ld = .ok (s', lost)) (hs : Sorted (getSp s e).sent) :
+    ∀ pn ∈ lost, ∃ p ∈ (getSp s e).sent, p.pn = pn ∧ p.st = PSt.I ∧
+      (p.ts + ld + (getSp s e).mad < s.now ∨ ∃ la, (getSp s e).la = some la ∧ pn + 3 ≤ la) :=
+  detectLost_pn h hs
+
+/-- the full clause holds exactly when the time threshold does not fire: if no packet of the space is older than
+`loss_delay + max_ack_delay`, every packet declared lost has a later acknowledged packet, three or more numbers ahead -/
+theorem lost_needs_later_ack_partial (s s' : St) (e ld : Nat) (lost : List Nat)
+    (h : detectLost s e ld = .ok (s', lost)) (hs : Sorted (getSp s e).sent)
+    (hyoung : ∀ p ∈ (getSp s e).sent, ¬ p.ts + ld + (getSp s e).mad < s.now) :
+    ∀ pn ∈ lost, ∃ la, (getSp s e).la = some la ∧ pn + 3 ≤ la := by
   intro pn hpn
-  unfold detectLost at h
-  split at h
-  · cases h; simp at hpn
-  · rename_i la hla
-    refine ⟨la, hla, ?_⟩
-    unfold detectLostLa at h
-    simp only at h
-    split at h
-    · cases h; simp at hpn
-    · split at h
-      · cases h
-      · cases h
-        simp only [List.mem_map] at hpn
-        obtain ⟨x, hx, rfl⟩ := hpn
-        obtain ⟨p, hp, hI, hx2, hthr, hle⟩ := lossWalk_lost _ _ _ _ _ _ _ x hx
-        have hpn : x.2.pn = p.pn := by rw [hx2]
-        refine ⟨by omega, p, hp, hpn.symm, hI, ?_⟩
-        rcases hthr with ht | ht
-        · left; omega
-        · right; exact ⟨x.1, by simpa [packetThreshold] using ht⟩
+  obtain ⟨p, hp, _, _, h3⟩ := detectLost_pn h hs pn hpn
+  rcases h3 with h3 | h3
+  · exact absurd h3 (hyoung p hp)
+  · exact h3
 
 /-- non-vacuity: five packets, the last acknowledged, nothing old: 0 and 1 are declared lost, `largest_acked = 4` -/
 def spW : Space :=
   { la := some 4, sent := (List.range 5).map fun k =>
       { pn := k, ts := 100, elic := true, cc := true, size := 1200, st := if k == 4 then PSt.A else PSt.I } }
 example : (detectLost { now := 100, s2 := spW } 2 50).toOption.map (·.2) = some [0, 1] := by decide
-
-/-- an acknowledged packet is never declared lost -/
-theorem acked_never_lost (s s' : St) (e ld : Nat) (lost : List Nat) (h : detectLost s e ld = .ok (s', lost)) :
-    ∀ pn ∈ lost, ∃ p ∈ (getSp s e).sent, p.pn = pn ∧ p.st = PSt.I := by
-  intro pn hpn
-  obtain ⟨_, _, _, p, hp, h1, h2, _⟩ := lost_needs_later_ack s s' e ld lost h pn hpn
-  exact ⟨p, hp, h1, h2⟩
-
-/-- before the first acknowledgement in a space nothing is ever declared lost there (fixed case 0 of the harness:
-client, one Initial packet, no ACK: only probe timeouts follow) -/
-theorem nothing_lost_before_first_ack (s s' : St) (e ld : Nat) (lost : List Nat)
-    (h : detectLost s e ld = .ok (s', lost)) (hla : (getSp s e).la = none) : lost = [] := by
-  unfold detectLost at h
-  rw [hla] at h
-  cases h; rfl
-
-example : ∃ s : St, (getSp s 0).la = none := ⟨{}, rfl⟩
-
-/-- if the largest acknowledged number itself is not `Inflight` (ACK frames acknowledge what was sent: the packet
-carrying that number was marked `Acked`), "not above" is "strictly below": a *later* packet has been acknowledged -/
-theorem lost_strictly_older (s s' : St) (e ld : Nat) (lost : List Nat) (h : detectLost s e ld = .ok (s', lost))
-    (hacked : ∀ p ∈ (getSp s e).sent, p.st = PSt.I → (getSp s e).la ≠ some p.pn) :
-    ∀ pn ∈ lost, ∃ la, (getSp s e).la = some la ∧ pn < la := by
-  intro pn hpn
-  obtain ⟨la, hla, hle, p, hp, h1, h2, _⟩ := lost_needs_later_ack s s' e ld lost h pn hpn
-  refine ⟨la, hla, ?_⟩
-  have := hacked p hp h2
-  rw [hla, h1] at this
-  have : pn ≠ la := fun h => this (by rw [h])
-  omega
-
-example : ∀ p ∈ (getSp { now := 100, s2 := spW } 2).sent, p.st = PSt.I → (getSp { now := 100, s2 := spW } 2).la ≠ some p.pn := by
-  decide
-
-/-- the detection pass leaves every packet that is not `Inflight` (in particular every `Acked` one) in the list, unchanged -/
-theorem acked_untouched_by_detection (T ld L la : Nat) (l : List Pkt) (k : Nat) (lt : Option Nat) (q : Pkt)
-    (hq : q ∈ l) (hst : q.st = PSt.A) : q ∈ (lossWalk T ld L la l k lt).1 :=
-  lossWalk_keeps T ld L la l k lt q hq (by rw [hst]; decide)
-
-example : ∃ q : Pkt, q ∈ [({ pn := 0, ts := 0, elic := true, cc := true, size := 1, st := PSt.A } : Pkt)] ∧ q.st = PSt.A :=
-  ⟨_, List.mem_cons_self, rfl⟩
-
-/-- on a sent list sorted by packet number (C07) the packet threshold is the RFC's: `largest_acked ≥ pn + 3` -/
-theorem lost_needs_threshold_pn (s s' : St) (e ld : Nat) (lost : List Nat)
-    (h : detectLost s e ld = .ok (s', lost)) (hs : Sorted (getSp s e).sent) :
-    ∀ pn ∈ lost, ∃ la, (getSp s e).la = some la ∧ pn ≤ la ∧ ∃ p ∈ (getSp s e).sent, p.pn = pn ∧ p.st = PSt.I ∧
-      (p.ts + ld + (getSp s e).mad < s.now ∨ pn + 3 ≤ la) :=
-  detectLost_pn h hs
-
 example : Sorted (getSp { now := 100, s2 := spW } 2).sent := by
   unfold Sorted; decide
-
-def hist0 : List (Inp × Op) := [(inp0, .grant), (inp0, .sent 0 0 true true 1200)]
-def w0 : St := (initSt false 1200 25000000).toOption.getD {}
 
 /-- For every history from `ArcCC::new` whose sends use increasing packet numbers per space (`MonoHist`, the
 caller's obligation proved for the sent journal in C07), the three sent lists stay sorted by packet number … -/
@@ -176,13 +187,13 @@ theorem sent_lists_sorted (server : Bool) (mtu mad : Nat) (s0 s : St) (h : List 
     Sorted (getSp s e).sent :=
   (run_sorted hr (initSt_sorted hi) hm).get e
 
-/-- … hence in every reachable state a detection pass declares lost only `Inflight` packets at or below the largest
-acknowledged number that are older than the time threshold or at least three packet numbers below it. -/
-theorem lost_needs_later_ack_reachable (server : Bool) (mtu mad : Nat) (s0 s s' : St) (h : List (Inp × Op))
+/-- … hence in every reachable state a detection pass declares lost only `Inflight` packets that are older than the
+time threshold or at least three packet numbers below the largest acknowledged one. -/
+theorem lost_needs_threshold_reachable (server : Bool) (mtu mad : Nat) (s0 s s' : St) (h : List (Inp × Op))
     (hi : initSt server mtu mad = .ok s0) (hr : run s0 h = .ok s) (hm : MonoHist s0 h)
     (e ld : Nat) (lost : List Nat) (hd : detectLost s e ld = .ok (s', lost)) :
-    ∀ pn ∈ lost, ∃ la, (getSp s e).la = some la ∧ pn ≤ la ∧ ∃ p ∈ (getSp s e).sent, p.pn = pn ∧ p.st = PSt.I ∧
-      (p.ts + ld + (getSp s e).mad < s.now ∨ pn + 3 ≤ la) :=
+    ∀ pn ∈ lost, ∃ p ∈ (getSp s e).sent, p.pn = pn ∧ p.st = PSt.I ∧
+      (p.ts + ld + (getSp s e).mad < s.now ∨ ∃ la, (getSp s e).la = some la ∧ pn + 3 ≤ la) :=
   detectLost_pn hd (sent_lists_sorted server mtu mad s0 s h hi hr hm e)
 
 example : MonoHist w0 hist0 := by
@@ -194,11 +205,6 @@ example : MonoHist w0 hist0 := by
   have hnil : (getSp { w0 with aaLimit := false } 0).sent = [] := by decide
   rw [hnil] at hq
   cases hq
-
-/-- fixed case 0 on the model: after 37.125 ms (the old time threshold) and after 99 ms (the first probe timeout)
-nothing is reported lost, the window is untouched, one probe is requested -/
-example : ((run w0 (hist0 ++ [(inp0, .tick 37125000), (inp0, .tick 61875000)])).toOption.map
-    fun s => (s.cwnd, s.pto, s.s0.need, s.s0.sent.map (·.st))) = some (12000, 1, 1, [PSt.I]) := by decide
 
 /-! ## the probe timeout doubles
 
@@ -364,32 +370,28 @@ theorem send_keeps_backoff (s s' : St) (i : Inp) (e pn : Nat) (elic infl : Bool)
     s.pto ≤ s'.pto := by
   unfold onPktSent at h
   simp only [ebind_ok] at h
-  obtain ⟨s3, h1, h2⟩ := h
-  have k3 : s3.pto = s.pto ∧ s3.server = s.server ∧ s3.disc0 = s.disc0 := by
-    cases infl
-    · simp only [Bool.false_eq_true, if_false] at h1
-      cases h1
-      unfold pushPkt
-      have := setSp_keeps s e { getSp s e with sent := (getSp s e).sent ++ [{ pn := pn, ts := s.now, elic := elic, cc := false, size := size, st := PSt.I }] }
-      exact ⟨this.1, this.2.1, this.2.2.1⟩
-    · simp only [if_true] at h1
-      rw [setTimer_eq h1]
-      unfold pushPkt sentInflight
+  obtain ⟨s1, h1, h2⟩ := h
+  have k1 : s1.pto = s.pto ∧ s1.server = s.server ∧ s1.disc0 = s.disc0 := by
+    split at h1
+    · rw [setTimer_eq h1]
+      unfold sentInflight
       simp only
-      have a1 := setSp_keeps { s with bytes := s.bytes + size } e (if elic then { getSp s e with tl := some s.now, need := (getSp s e).need - 1 } else getSp s e)
-      have a2 := setSp_keeps (setSp { s with bytes := s.bytes + size } e (if elic then { getSp s e with tl := some s.now, need := (getSp s e).need - 1 } else getSp s e)) e
-        { getSp (setSp { s with bytes := s.bytes + size } e (if elic then { getSp s e with tl := some s.now, need := (getSp s e).need - 1 } else getSp s e)) e with
-          sent := (getSp (setSp { s with bytes := s.bytes + size } e (if elic then { getSp s e with tl := some s.now, need := (getSp s e).need - 1 } else getSp s e)) e).sent ++ [{ pn := pn, ts := s.now, elic := elic, cc := true, size := size, st := PSt.I }] }
-      exact ⟨a2.1.trans a1.1, a2.2.1.trans a1.2.1, a2.2.2.1.trans a1.2.2.1⟩
+      exact ⟨(setSp_keeps _ _ _).1, (setSp_keeps _ _ _).2.1, (setSp_keeps _ _ _).2.2.1⟩
+    · cases h1; exact ⟨rfl, rfl, rfl⟩
+  have k2 := setSp_keeps s1 e { getSp s1 e with sent := (getSp s1 e).sent ++ [{ pn := pn, ts := s.now, elic := elic, cc := infl, size := size, st := PSt.I }] }
+  unfold pushPkt at h2
+  simp only at h2
   split at h2
   · rename_i hc
     simp only [Bool.and_eq_true, beq_iff_eq, Bool.not_eq_true'] at hc
+    rw [k2.2.1, k1.2.1] at hc
     rcases hne with hd | hs | he
-    · have := (discard_resets_once s3 s' 0 _ _ h2).2 (by unfold isDiscarded; rw [k3.2.2]; exact hd)
-      omega
-    · rw [k3.2.1, hs] at hc; cases hc.2
+    · have := (discard_resets_once _ s' 0 _ _ h2).2 (by unfold isDiscarded; rw [k2.2.2.1, k1.2.2]; exact hd)
+      rw [this, k2.1, k1.1]; exact Nat.le_refl _
+    · rw [hs] at hc; cases hc.2
     · exact absurd hc.1 he
-  · cases h2; omega
+  · cases h2
+    rw [k2.1, k1.1]; exact Nat.le_refl _
 
 example : ∃ (s s' : St), onPktSent s inp0 1 0 true true 300 = .ok s' ∧ s.disc0 = true ∧ s.pto = 3 ∧ s'.pto = 3 :=
   ⟨{ disc0 := true, pto := 3, aaLimit := false, hsKey := true }, _, rfl, rfl, rfl, by decide⟩
